@@ -202,6 +202,9 @@ func (x *Exec) exec(st *State, s ast.Stmt) *State {
 			x.eval(st, a)
 		}
 		x.abstracted("go statement")
+		// ghost counter of started goroutines: lets a contract say that a
+		// function starts exactly the goroutines it promises
+		x.ghostSet(st, "goroutines", Add(x.ghostGet(st, "goroutines"), IntLit(1)))
 		return st
 	case *ast.SendStmt:
 		ch := x.eval(st, s.Chan)
